@@ -267,7 +267,7 @@ def run_property(modname, tier, seed, nproc=None, only=None, verbose=False):
     harness_errors = []
     tot = dict(paths=0, decisions=0, forced=0, branch_queries=0, assert_queries=0, model_queries=0,
                obligations=0, discharged=0, solver_s=0.0, unknown=0, timeouts=0, dead=0,
-               unexplored=0, nonlinear_ops=0)
+               unexplored=0, nonlinear_ops=0, fallback_queries=0)
     reached, covers, flags = {}, {}, {}
     functions = set()
     exhaustive = True
@@ -287,7 +287,7 @@ def run_property(modname, tier, seed, nproc=None, only=None, verbose=False):
         tot['paths'] += r['paths']
         tot['dead'] += r['dead_paths']
         for k in ('decisions', 'forced', 'branch_queries', 'assert_queries', 'model_queries',
-                  'obligations', 'discharged', 'unknown', 'timeouts', 'nonlinear_ops'):
+                  'obligations', 'discharged', 'unknown', 'timeouts', 'nonlinear_ops', 'fallback_queries'):
             tot[k] += st[k]
         tot['solver_s'] += st['solver_s']
         tot['unexplored'] += r['unexplored_prefixes']
@@ -420,7 +420,8 @@ def run_property(modname, tier, seed, nproc=None, only=None, verbose=False):
             'bounds': meta.get('bounds', {}).get(tier, meta.get('bounds', '')),
             'jobs': len(jobs), 'jobs_skipped_for_budget': skipped_jobs,
             'queries': {'branch_feasibility': tot['branch_queries'], 'assertion': tot['assert_queries'],
-                        'model_refresh': tot['model_queries']},
+                        'model_refresh': tot['model_queries'],
+                        'non_incremental_fallback': tot['fallback_queries']},
             'forced_branches': tot['forced'],
             'solver_s': round(tot['solver_s'], 2),
             'inconclusive_paths': inconclusive,
